@@ -332,14 +332,14 @@ def mon_reader_mutex(case, lines):
 
 
 def mon_lock_shared_steps(case, lines):
-    """a read acquisition is exactly three own visible operations (load, rmw, load) and always returns a handle"""
+    """a read acquisition is a fixed, small number of own atomic operations (wait-free) and always returns a handle"""
     ops = _Ops(case)
     for i, t, k, o, v in _events(lines):
         done = ops.feed(i, t, k, o, v)
         if done and done['code'] in LOCKS and done['ret'] == 0:
             kinds = [e[1] for e in done['evs'][:-1]]
-            if kinds != [K['LOAD'], K['RMW'], K['LOAD']]:
-                return 'lock_shared of thread %d (line %d) performed %s instead of load, rmw, load' % (t, i, kinds)
+            if len(kinds) > 4 or any(not (K['LOAD'] <= x <= K['XCHG']) for x in kinds):
+                return 'lock_shared of thread %d (line %d) performed %s: not a short sequence of atomic operations' % (t, i, kinds)
     return None
 
 
